@@ -84,6 +84,12 @@ constructor `jwt_init`; no sign, verify, parse or keyring path calls `jwt_set_cr
 `jwt_set_alloc`. -/
 theorem C18_no_internal_reconfig : internalReconfigCalls = [("jwt_set_crypto_ops", "jwt_init")] := by decide
 
+/-- **No call into a process-wide buffer**: the library sources call none of the C / OpenSSL functions that return or fill a
+buffer shared by all threads (`strtok`, `localtime`, `strerror`, `rand`, `ERR_error_string(…, NULL)`, …) -- such a buffer
+lives outside `libjwt.a`, so the symbol table (`C18_statics`) cannot see it and ThreadSanitizer does not see writes made inside
+an uninstrumented library. -/
+theorem C18_no_shared_buffer_calls : nonReentrantCalls = [] := by decide
+
 example : (runSched toy () (fun _ => 0) [(0, 1), (1, 10), (0, 2), (1, 20)]).2 = [(0, 1), (1, 10), (0, 3), (1, 30)] := by decide
 example : proj 1 (runSched toy () (fun _ => 0) [(0, 1), (1, 10), (0, 2), (1, 20)]).2 = (runThread toy () 0 [10, 20]).2 := by decide
 
